@@ -29,7 +29,7 @@ def run_mutant(path):
                 return (pid, name, "PATCH-FAILED", r.stdout + r.stderr)
         vdir = tmp + "/verif"
         os.makedirs(vdir)
-        for f in ("props.json", "known_findings.json", "specs", "claimed", "replay"):
+        for f in ("props.json", "known_findings.json", "specs", "claimed", "replay", "lib"):
             src = os.path.join(VERIF, f)
             if os.path.isdir(src):
                 shutil.copytree(src, os.path.join(vdir, f))
